@@ -44,16 +44,24 @@ func newGCWorld(r *Rng, cov *Cov) *gcWorld {
 	for i := 0; i < r.Intn(20); i++ {
 		ecs.TypeID(&w, TypeOfKey(fmt.Sprintf("F%d", 6500+i)))
 	}
-	g.ids["P1"] = ecs.ComponentID[P1](&w)
-	g.ids["V1"] = ecs.ComponentID[V1](&w)
-	g.ids["P2"] = ecs.ComponentID[P2](&w)
-	g.ids["P3"] = ecs.ComponentID[P3](&w)
-	g.ids["V2"] = ecs.ComponentID[V2](&w)
-	g.ids["P4"] = ecs.ComponentID[P4](&w)
-	g.ids["P5"] = ecs.ComponentID[P5](&w)
-	g.ids["V3"] = ecs.ComponentID[V3](&w)
-	g.rel = ecs.ComponentID[RelA](&w)
-	g.ids["Rel"] = g.rel
+	// registration order decides the IDs: shuffle it, so that zero-sized labels and the relation get IDs
+	// below, between and above the pointer-carrying components
+	reg := map[string]func() ecs.ID{
+		"P1": func() ecs.ID { return ecs.ComponentID[P1](&w) }, "P2": func() ecs.ID { return ecs.ComponentID[P2](&w) },
+		"P3": func() ecs.ID { return ecs.ComponentID[P3](&w) }, "P4": func() ecs.ID { return ecs.ComponentID[P4](&w) },
+		"P5": func() ecs.ID { return ecs.ComponentID[P5](&w) }, "V1": func() ecs.ID { return ecs.ComponentID[V1](&w) },
+		"V2": func() ecs.ID { return ecs.ComponentID[V2](&w) }, "V3": func() ecs.ID { return ecs.ComponentID[V3](&w) },
+		"Rel": func() ecs.ID { return ecs.ComponentID[RelA](&w) },
+	}
+	order := []string{"P1", "P2", "P3", "P4", "P5", "V1", "V2", "V3", "Rel"}
+	Shuffle(r, order)
+	for _, k := range order {
+		g.ids[k] = reg[k]()
+		if r.Chance(0.3) {
+			ecs.TypeID(&w, TypeOfKey(fmt.Sprintf("F%d", 6600+len(g.ids))))
+		}
+	}
+	g.rel = g.ids["Rel"]
 	g.pids = []string{"P1", "P2", "P3", "P4", "P5"}
 	return g
 }
